@@ -212,6 +212,11 @@ class InterpND(object):
 
         self.grid = tuple([np.asarray(p) for p in points])
         self.values = values
+        if x_interp is not None:
+            x_interp = np.asarray(x_interp)
+            if x_interp.dtype.kind in 'iub':
+                # Integer coordinates would give the work arrays of the algorithms an integer dtype.
+                x_interp = x_interp.astype(float)
         self.x_interp = x_interp
 
         self._xi = None
@@ -266,6 +271,11 @@ class InterpND(object):
         else:
             # Input is a list or tuple of separate points.
             x = np.atleast_2d(x)
+
+        if x.dtype.kind in 'iub':
+            # Integer coordinates would give the work arrays of the algorithms (and the coefficients
+            # they cache) an integer dtype.
+            x = x.astype(float)
 
         # cache latest evaluation point for gradient method's use later
         self._xi = x
